@@ -16,6 +16,21 @@ ALL = [f"C{i:02d}" for i in range(1, 36)]
 
 # id -> (category, technique, text, note, design_ref)
 CHECKS: dict[str, tuple[str, str, str, str, str]] = {
+    "C01": (
+        "exploration",
+        "bounded-exhaustive differential execution (plain vs. instrumented module) with process isolation",
+        "Every program of the progen grammar up to size 3 / depth 2 (quick: size <= 2 in full plus a deterministic "
+        "1/6 of size 3), 52 seeds and 37 C01 programs is called on its input menu extended with 21 adversarial "
+        "values (NaN, -0.0, inf, ints > 2^53 and > 1e308, Decimal, Fraction, one-shot iterators, user classes with "
+        "partial / raising comparison protocols, tuples for startswith) under all 8 subsets of {BRANCH, LINE, "
+        "CHECKED} with dynamic seeding always on, and compared with the uninstrumented module: return value, "
+        "exception type, stdout, module and argument state, user-operator log, iterator consumption. 34-44 "
+        "pure-Python stdlib modules are instrumented with all metrics, imported and smoke-called. Interpreter "
+        "crashes and hangs of instrumented code are detected by process isolation.",
+        "CPython 3.12; the default seeding provider install_import_hook creates; exceptions compared by type. "
+        "Quick is sampled at size 3 (exhaustive=false); thorough is exhaustive for the stated bounds.",
+        "5/C01",
+    ),
     "C02": (
         "exploration",
         "bounded-exhaustive program x input enumeration, differential against sys.monitoring LINE events",
@@ -224,6 +239,22 @@ CHECKS: dict[str, tuple[str, str, str, str, str]] = {
         "Namespace taken from files written by the real writer; assertions run with the file's globals and "
         "{var_0: obj} as locals. Values outside the stated space are not covered.",
         "5/C20",
+    ),
+    "C21": (
+        "exploration",
+        "bounded-exhaustive kill maps / metric tuples / scripted mutant-result matrices + enumerated tests through the real assertion generators with differential re-execution",
+        "Every kill map up to 4x4 (and 5x3) through the real _select_minimal_assertions keeps only killing "
+        "assertions and the full kill union; every (created, killed, timed-out) <= 6 and every summary of <= 6 "
+        "mutants gives a score in [0,1] that ignores timed-out mutants; every tests x mutants result matrix over a "
+        "cell alphabet through the real _handle_add_assertions loses no kill. On 5 corpus modules every "
+        "factory-built test with <= 1 RNG deviation, as 1-2-test suites through AssertionGenerator and the "
+        "mutation-analysis generator (first-order and higher-order, with and without minimisation), leaves only "
+        "assertions that hold on re-execution (real verification observer + an independent evaluator) and loses no "
+        "mutant kill (kill sets recomputed from fresh executions on all mutants).",
+        "Corpus modules are deterministic (c21_flaky changes monotonically per execution); executor budgets raised to "
+        "120 s; pynguin's executor and mutant creation are reused to run tests on mutants; the kill definition "
+        "(expected exceptions count as kills) is not checked.",
+        "5/C21",
     ),
     "C22": (
         "model_checking",
